@@ -1,0 +1,12 @@
+//go:build verif
+
+package offset
+
+// Contracts checked by /verif (govc). Comment-only: no executable code.
+
+//@ func (*OffsetLatestSeqNoInit).InitializeLatestSeqNo
+//@ props C02 C12
+//@ requires l != nil && l.config != nil
+//@ ensures.finite[C02,C12] l.config.Dcp.Mode == "finite" ==> result == vBucketSeqNo
+//@ ensures.infinite[C02,C12] l.config.Dcp.Mode != "finite" ==> result == 0xffffffffffffffff
+//@ modifies nothing
